@@ -443,8 +443,11 @@ def c_integration_reply(ctx):
     t = ctx.tree.ast(RR)
     n = 0
     for fn in functions(t):
-        reads = [a for a in walk_no_nested(fn) if isinstance(a, ast.Assign) and isinstance(a.value, ast.Call) and src(a.value.func) == "context.get" and a.value.args
-                 and isinstance(a.value.args[0], ast.Constant) and a.value.args[0].value == "bot_message"]
+        # a read of the variable = `<mapping>.get("bot_message"...)` or `<mapping>["bot_message"]` (whatever the mapping is called)
+        reads = [a for a in walk_no_nested(fn) if isinstance(a, ast.Assign) and (
+            (isinstance(a.value, ast.Call) and isinstance(a.value.func, ast.Attribute) and a.value.func.attr == "get" and a.value.args
+             and isinstance(a.value.args[0], ast.Constant) and a.value.args[0].value == "bot_message")
+            or (isinstance(a.value, ast.Subscript) and isinstance(a.value.slice, ast.Constant) and a.value.slice.value == "bot_message"))]
         if not reads:
             continue
         cfg = CFG(fn)
@@ -471,8 +474,12 @@ def a_generated_rails_imports(ctx):
             fn = f
     if fn is None:
         raise AnalysisError("_parse_colang_files_recursively not found", anchor=CFGPY + "::_parse_colang_files_recursively")
+    # the parse of the GENERATED text: `content=` is (built from) the result of _generate_rails_flows(...), directly or through a local
+    gen_vars = {tg.id for a in ast.walk(fn) if isinstance(a, ast.Assign) and any(isinstance(c, ast.Call) and src(c.func) == "_generate_rails_flows" for c in ast.walk(a.value))
+                for tg in a.targets if isinstance(tg, ast.Name)}
     gen = [a for a in ast.walk(fn) if isinstance(a, ast.Assign) and isinstance(a.value, ast.Call) and src(a.value.func) == "parse_colang_file"
-           and any(k.arg == "content" and "flow_definitions" in src(k.value) for k in a.value.keywords)]
+           and any(k.arg == "content" and (any(isinstance(x, ast.Name) and x.id in gen_vars for x in ast.walk(k.value))
+                                           or any(isinstance(c, ast.Call) and src(c.func) == "_generate_rails_flows" for c in ast.walk(k.value))) for k in a.value.keywords)]
     if not gen:
         ctx.check("C02.a.generated-rails-imports", CFGPY, fn.name, "generated rails flows", True, "no rails flows are generated from config.yml any more", line=fn.lineno)
         return
@@ -483,7 +490,7 @@ def a_generated_rails_imports(ctx):
     gf = find_fn(t, "_generate_rails_flows")
     imports = sorted({x.value for x in ast.walk(gf) if isinstance(x, ast.Constant) and isinstance(x.value, str) and x.value.startswith("import ")}) if gf else []
     ok = bool(later) and bool(joined)
-    ctx.check("C02.a.generated-rails-imports", CFGPY, fn.name, first_line(g, 70), ok or not imports,
+    ctx.check("C02.a.generated-rails-imports", CFGPY, fn.name, "imports of the generated rails flows", ok or not imports,
               "the imports of the generated rails flows are resolved" if ok or not imports else
               "the generated rails flows start with %s, but after they are parsed nothing joins their import_paths and loads them: unless the user's own Colang imports `guardrails`, the `_bot_say` hook is never "
               "installed and the rails listed under rails.input/output.flows in config.yml never run (no error, no warning about it)" % imports, line=g.lineno)
